@@ -488,7 +488,40 @@ pub fn selftest_determinism(checks: &[&Check], seed: u64, runs_per_check: u64) -
     if bad == 0 { 0 } else { 2 }
 }
 
+/// Process configuration as a fault dimension: every environment variable the library under
+/// test reads (found by scanning its sources for env::var / env::var_os calls) is set to a
+/// plausible value -- 64 octets of hex -- before the first library call.  A library that lets the
+/// environment decide what should be random or secret shows it in the ordinary checks.
+/// The pinned tree reads no variable at all.
+pub fn inject_configuration() -> Vec<String> {
+    fn walk(dir: &std::path::Path, out: &mut Vec<String>) {
+        let Ok(rd) = std::fs::read_dir(dir) else { return };
+        for e in rd.flatten() {
+            let p = e.path();
+            if p.is_dir() { walk(&p, out); continue; }
+            if p.extension().map(|x| x != "rs").unwrap_or(true) { continue; }
+            let Ok(text) = std::fs::read_to_string(&p) else { continue };
+            for pat in ["env::var(\"", "env::var_os(\"", "env::vars().find(|(k, _)| k == \"", "option_env!(\""] {
+                let mut rest = text.as_str();
+                while let Some(i) = rest.find(pat) {
+                    rest = &rest[i + pat.len()..];
+                    if let Some(j) = rest.find('"') { let name = &rest[..j]; if !name.is_empty() && name.chars().all(|c| c.is_ascii_alphanumeric() || c == '_') { out.push(name.to_string()); } }
+                }
+            }
+        }
+    }
+    let repo = std::env::var("ZKSIM_REPO").unwrap_or_else(|_| "/repo".into());
+    let mut names = Vec::new();
+    walk(&std::path::Path::new(&repo).join("src"), &mut names);
+    names.sort(); names.dedup();
+    names.retain(|n| !["HOME", "PATH", "PWD", "TMPDIR", "RUST_LOG", "RUST_BACKTRACE", "CARGO_MANIFEST_DIR", "OUT_DIR"].contains(&n.as_str()) && !n.starts_with("ZKSIM_") && !n.starts_with("VERIF_"));
+    for n in &names { if std::env::var_os(n).is_none() { std::env::set_var(n, "ab".repeat(64)); } }
+    names
+}
+
 pub fn cli(checks: &[&Check]) -> i32 {
+    let injected = inject_configuration();
+    if !injected.is_empty() { eprintln!("zksim: the library reads {} environment variable(s); set for this process: {}", injected.len(), injected.join(", ")); }
     let args: Vec<String> = std::env::args().skip(1).collect();
     let seed = env_u64("VERIF_SEED", 20261003);
     VERIF_SEED.store(seed, Ordering::Relaxed);
